@@ -3,7 +3,8 @@
    The generators themselves (index arithmetic, tables, coordinates, call plumbing) are GENERATED from
    /repo's current source into Gen.v on every run; this file only provides
    - the vocabulary Gen.v is written in (zlen, ztake_while, the bare operation record `ops`, vectors,
-     linspace, and the hand model of geometry.rotate_around_axis / Vec.normalized that `cylinder` calls);
+     linspace, and the hand model of Vec.normalized / Vec.norm that `cylinder` calls; geometry.rotate_around_axis and
+     geometry.rotate_2d are GENERATED from mouette/geometry/rotations.py into Gen.v under the names geom_rotate_around_axis, geom_rotate_2d);
    - the combinatorial notions the property speaks about (directed edges, border, Euler characteristic,
      connectedness, vertex umbrellas) together with executable boolean checkers;
    - the hand model of SurfaceMesh.connectivity.vertex_to_faces that dual_mesh consumes. *)
@@ -72,10 +73,6 @@ Section Vec.
   Definition omin (a b : T) : T := if oltb O a b then a else b.
   Definition omax (a b : T) : T := if oltb O a b then b else a.
   Definition oabs_lt (x e : T) : bool := oltb O x e && oltb O (oopp O e) x.
-  (* geometry/rotations.py rotate_2d, followed in flat_ring by Vec(dir.x, dir.y, 0.) *)
-  Definition rotate_2d (v : vec T) (angle : T) : vec T :=
-    let ca := ocos O angle in let sa := osin O angle in
-    (osub O (omul O (vx v) ca) (omul O (vy v) sa), oadd O (omul O (vx v) sa) (omul O (vy v) ca), oofZ O 0).
   (* a loop with one carried vector: the successive states *)
   Fixpoint vscan (f : vec T -> Z -> vec T) (s : vec T) (l : list Z) : list (vec T) :=
     match l with
@@ -92,22 +89,6 @@ Section Vec.
   (* np.linspace(a, b, n)[i] = a + i * ((b - a) / (n - 1)) *)
   Definition linspace (a b : T) (n i : Z) : T :=
     oadd O a (omul O (oofZ O i) (odiv O (osub O b a) (oofZ O (n - 1)))).
-  (* geometry/rotations.py rotate_around_axis (Rodrigues); the early `return inp` for a zero angle is
-     the same value *)
-  Definition rotate_around_axis (inp axis0 : vec T) (angle : T) : vec T :=
-    let c := ocos O angle in
-    let s := osin O angle in
-    let axis := vnormalized axis0 in
-    let u := vx axis in let v := vy axis in let w := vz axis in
-    let one := oofZ O 1 in
-    let m := osub O one c in
-    let add := oadd O in let sub := osub O in let mul := omul O in
-    (add (add (mul (add c (mul (mul u u) m)) (vx inp)) (mul (sub (mul (mul u v) m) (mul w s)) (vy inp)))
-         (mul (add (mul (mul u w) m) (mul v s)) (vz inp)),
-     add (add (mul (add (mul (mul u v) m) (mul w s)) (vx inp)) (mul (add c (mul (mul v v) m)) (vy inp)))
-         (mul (sub (mul (mul v w) m) (mul u s)) (vz inp)),
-     add (add (mul (sub (mul (mul u w) m) (mul v s)) (vx inp)) (mul (add (mul (mul v w) m) (mul u s)) (vy inp)))
-         (mul (add c (mul (mul w w) m)) (vz inp))).
 End Vec.
 
 (* ------------------------------------------------------------------ combinatorics of a face list *)
